@@ -35,7 +35,8 @@ def replay(d):
     try:
         inc.write(f1, sh['reset'])
         nv = sh['nvars'] if sh['nvars'] > 4 else None
-        inc2 = t2incon(f1, num_variables=nv)
+        rkw = dict(check_blocknames=False) if sh.get('freenames') else {}
+        inc2 = t2incon(f1, num_variables=nv, **rkw)
         if inc2.num_blocks != len(d['blocks']): problems.append('block count %d != %d' % (inc2.num_blocks, len(d['blocks'])))
         else:
             for b, r in zip(d['blocks'], inc2):
